@@ -7,7 +7,7 @@
 // transforms: rename, invert, swapeq, negform, demorgan, parens, constextract, hoistcond,
 // guard2else, switch2if, if2switch, retlocal, varform, reorder, splitinit, mergeinit, hoistarg,
 // ret2else, splitand, lencmp, incr, boolret, predfunc, rangeidx,
-// elsenest, swapand, kvorder, caseorder, inlinelocal, renamefile, extractblock
+// elsenest, swapand, kvorder, caseorder, inlinelocal, renamefile, extractblock, countloop
 package main
 
 import (
@@ -1061,6 +1061,93 @@ func apply(p *packages.Package, f *ast.File, fd *ast.FuncDecl, tr string) int {
 			taken[b] = true
 			n++
 		}
+	case "countloop":
+		// for i, x := range xs {… x …}  →  for i := 0; i < len(xs); i++ {… xs[i] …}  (slice not modified in the loop, x only read)
+		k := 0
+		astutil.Apply(fd.Body, nil, func(c *astutil.Cursor) bool {
+			rs, ok := c.Node().(*ast.RangeStmt)
+			if !ok || rs.Tok != token.DEFINE || rs.Value == nil || !pure(rs.X) {
+				return true
+			}
+			if _, isSlice := info.TypeOf(rs.X).Underlying().(*types.Slice); !isSlice {
+				return true
+			}
+			vid, ok := rs.Value.(*ast.Ident)
+			if !ok || vid.Name == "_" || info.Defs[vid] == nil {
+				return true
+			}
+			var b0 bytes.Buffer
+			format.Node(&b0, p.Fset, rs.X)
+			root := b0.String()
+			bad := false
+			txt := func(e ast.Expr) string {
+				var b bytes.Buffer
+				format.Node(&b, p.Fset, e)
+				return b.String()
+			}
+			ast.Inspect(rs.Body, func(m ast.Node) bool {
+				switch x := m.(type) {
+				case *ast.AssignStmt:
+					for _, l := range x.Lhs {
+						lt := txt(l)
+						if lt == root || strings.HasPrefix(lt, root+"[") || lt == vid.Name || strings.HasPrefix(lt, vid.Name+".") {
+							bad = true
+						}
+					}
+				case *ast.IncDecStmt:
+					bad = true
+				case *ast.UnaryExpr:
+					if x.Op == token.AND {
+						bad = true
+					}
+				case *ast.FuncLit:
+					bad = true
+				case *ast.CallExpr:
+					for _, a := range x.Args {
+						if txt(a) == root {
+							bad = true
+						}
+					}
+					// a method call on the element may have a pointer receiver (address taken)
+					if sel, ok := x.Fun.(*ast.SelectorExpr); ok {
+						if id, ok := sel.X.(*ast.Ident); ok && info.Uses[id] == info.Defs[vid] {
+							if s2, ok := info.Selections[sel]; ok && s2.Indirect() == false {
+								if sig, ok := s2.Obj().Type().(*types.Signature); ok && sig.Recv() != nil {
+									if _, isPtr := sig.Recv().Type().(*types.Pointer); isPtr {
+										bad = true
+									}
+								}
+							}
+						}
+					}
+				}
+				return true
+			})
+			if bad {
+				return true
+			}
+			var idx *ast.Ident
+			if kid, ok := rs.Key.(*ast.Ident); ok && kid.Name != "_" {
+				idx = kid
+			} else {
+				k++
+				idx = ast.NewIdent("ci" + strconv.Itoa(k))
+			}
+			astutil.Apply(rs.Body, func(c2 *astutil.Cursor) bool {
+				if id, ok := c2.Node().(*ast.Ident); ok && info.Uses[id] == info.Defs[vid] {
+					c2.Replace(&ast.IndexExpr{X: rs.X, Index: ast.NewIdent(idx.Name)})
+				}
+				return true
+			}, nil)
+			c.Replace(&ast.ForStmt{
+				Init: &ast.AssignStmt{Lhs: []ast.Expr{ast.NewIdent(idx.Name)}, Tok: token.DEFINE, Rhs: []ast.Expr{&ast.BasicLit{Kind: token.INT, Value: "0"}}},
+				Cond: &ast.BinaryExpr{X: ast.NewIdent(idx.Name), Op: token.LSS, Y: &ast.CallExpr{Fun: ast.NewIdent("len"), Args: []ast.Expr{rs.X}}},
+				Post: &ast.IncDecStmt{X: ast.NewIdent(idx.Name), Tok: token.INC},
+				Body: rs.Body,
+			})
+			n++
+			return true
+		})
 	case "elsenest":
 		// else if c {…}  →  else { if c {…} }
 		ast.Inspect(fd.Body, func(nd ast.Node) bool {
